@@ -1,3 +1,4 @@
+pub mod builder;
 pub mod decode;
 pub mod operand;
 pub mod reflect;
